@@ -95,10 +95,10 @@ func siteKind(ev string) string {
 	return ""
 }
 
-// runCoop runs k actors (body(t) is the call under test; it returns when the call has returned)
+// runChainCoop runs k actors (body(t) is the call under test; it returns when the call has returned)
 // under a schedule: forced (the actor resumed at each step) if not nil, else drawn from rng with the
 // given policy.  note turns an arrival into the trace event ("" = none); it is called in trace order.
-func runCoop(s *coopSched, k int, body func(t int), wp bool, rng *rand.Rand, policy int, forced []int, note func(a coopArrival) string) coopRun {
+func runChainCoop(s *coopSched, k int, body func(t int), wp bool, rng *rand.Rand, policy int, forced []int, note func(a coopArrival) string) coopRun {
 	var res coopRun
 	desync.VerifChain = func(obj interface{}, ev string, a, b int, peer desync.Store) { s.hook(ev, a, b, peer) }
 	for t := 0; t < k; t++ {
@@ -490,7 +490,7 @@ func runFailover(c foCase, rng *rand.Rand, policy int, forced []int) foResult {
 		stores[i] = members[i]
 	}
 	g = desync.NewFailoverGroup(stores...)
-	out.run = runCoop(s, k, body, c.wp, rng, policy, forced, note)
+	out.run = runChainCoop(s, k, body, c.wp, rng, policy, forced, note)
 	out.results = results
 	for t := range results {
 		if results[t] == "ok:m" || results[t] == "ok:y" || results[t] == "ok:n" {
@@ -756,7 +756,7 @@ func runSwap(c swCase, rng *rand.Rand, policy int, forced []int) swResult {
 		}
 		return fmt.Sprintf("unknown-%s:%d", a.ev, t)
 	}
-	out.run = runCoop(s, k, body, c.wp, rng, policy, forced, note)
+	out.run = runChainCoop(s, k, body, c.wp, rng, policy, forced, note)
 	out.results = results
 	if out.run.problem != "" {
 		out.answer = "impl-" + out.run.problem
